@@ -59,6 +59,30 @@ func factsClient(p *pkg, o *out) {
 	for _, f := range []string{"indexFragment", "splitMessage", "cutNewLines", "splitArgs"} {
 		o.shapeDef(p, "", f)
 	}
+	// tagsReplacer: the (old, new) pairs handed to strings.NewReplacer
+	{
+		var pairs []string
+		ok := false
+		if v := p.value("tagsReplacer"); v != nil {
+			if ce, isCall := v.(*ast.CallExpr); isCall && p.show(ce.Fun) == "strings.NewReplacer" {
+				ok = true
+				for _, a := range ce.Args {
+					s, sok := strLit(a)
+					if !sok {
+						ok = false
+					}
+					pairs = append(pairs, s)
+				}
+			}
+		}
+		o.bytesListDef("tagsReplacerArgs", pairs, ok)
+	}
+	for _, f := range []string{"ParseLine", "parseUserHost"} {
+		o.shapeDef(p, "", f)
+	}
+	for _, m := range []string{"Copy", "Text", "Target", "Public", "argslen"} {
+		o.shapeDef(p, "Line", m)
+	}
 	// which functions send on conn.out, and which exported *Conn methods reach Raw
 	{
 		var senders []string
